@@ -9,11 +9,15 @@ Line-protocol driver for stream `ocsp` (C02, C05, C14). One model state: the pro
   filter <urlhex>                               → 0|1                      filterHTTPOCSPServers on one URL
   key <issuerhex> <subjecthex> <serial>         → <keyhex>                 cache key
   parse <serial> <cands> <body>                 → none | <g|r|u> nu=<n|ms> parseOcspResponse
-  look <strict> <defMs> <t> <cert> <chain> <servers>
-                                                → <good|revoked|error> req=<s.c,…|-> hit=<0|1> store=<lifeMs|-> cands=<n>
+  look <strict> <defMs> <t> <cert> <chains> <trusted> <servers>
+                                                → <good|revoked|error> req=<s.k,…|-> hit=<0|1> store=<lifeMs|->
+                                                  (s = index of the URL in the certificate, k = key id of the candidate the
+                                                   request was built for)
 
   <cert>    issuerhex,subjecthex,serial,alg,<aki>       aki: n | x | a/<kidhex|n>/<serial|n>/<issuerhex|n>
-  <chain>   - | entry;entry;…   entry = certId,key,subjecthex,issuerhex,serial,<skihex|n>,alg
+  <chains>  - | chain|chain|…   verified chains as presented;  chain = entry;entry;…
+  <trusted> - | entry;entry;…   configured trusted responder certificates
+            entry = certId,key,subjecthex,issuerhex,serial,<skihex|n>,alg
   <cands>   - | certId:key;…
   <servers> - | urlhex=<sel>:<beh>|<sel>:<beh>…;…        sel = candidate certId or *  (first match wins; no match = fetch error)
   <beh>/<body>  E (fetch error the responder log shows) | X (fetch error nobody can observe: refused, TLS failure,
@@ -182,9 +186,9 @@ def optNatStr : Option Nat → String
 
 def hexOfStr (s : Str) : String := toHex (s.map (fun c => UInt8.ofNat c.toNat))
 
-def reqStr (servers : List Str) (cands : List Cand) (reqs : List (Str × Cand)) : String :=
+def reqStr (servers : List Str) (reqs : List (Str × Cand)) : String :=
   if reqs.isEmpty then "-" else
-  ",".intercalate (reqs.map (fun q => toString (servers.idxOf q.1) ++ "." ++ toString (cands.idxOf q.2)))
+  ",".intercalate (reqs.map (fun q => toString (servers.idxOf q.1) ++ "." ++ toString q.2.key))
 
 def step (s : State) (ws : List String) : State × String :=
   match ws with
@@ -209,19 +213,20 @@ def step (s : State) (ws : List String) : State × String :=
       | none => (s, "none")
       | some p => (s, statusStr p.status ++ " nu=" ++ optNatStr p.nextUpdate)
     | _, _, _ => (s, "bad-op")
-  | ["look", strict, d, t, cert, chain, servers] =>
-    match bool01 strict, d.toNat?, t.toNat?, listOf ";" parseSrv servers, listOf ";" parseChainCert chain with
-    | some strict, some d, some t, some srvs, some chain =>
+  | ["look", strict, d, t, cert, chains, trusted, servers] =>
+    match bool01 strict, d.toNat?, t.toNat?, listOf ";" parseSrv servers,
+          listOf "|" (listOf ";" parseChainCert) chains, listOf ";" parseChainCert trusted with
+    | some strict, some d, some t, some srvs, some chains, some trusted =>
       match parseCert cert (srvs.map (·.url)) with
       | some cert =>
-        let cands := (candidates cert chain).map ChainCert.cand
+        let cands := (candidates cert (issuerPool ocspFacts chains trusted)).map ChainCert.cand
         let T := Cache.sweep s.table t
         let o := lookup ocspFacts Vd { strict := strict, defaultDur := d } cert cands (answerOf srvs) t T
         ({ table := o.table },
-         o.result.toString ++ " req=" ++ reqStr cert.servers cands (o.requests.filter (observable srvs)) ++ " hit=" ++ (if o.hit then "1" else "0") ++
-         " store=" ++ (match o.stored with | none => "-" | some l => toString l) ++ " cands=" ++ toString cands.length)
+         o.result.toString ++ " req=" ++ reqStr cert.servers (o.requests.filter (observable srvs)) ++ " hit=" ++ (if o.hit then "1" else "0") ++
+         " store=" ++ (match o.stored with | none => "-" | some l => toString l))
       | none => (s, "bad-op")
-    | _, _, _, _, _ => (s, "bad-op")
+    | _, _, _, _, _, _ => (s, "bad-op")
   | _ => (s, "bad-op")
 
 end Crv.Driver.Ocsp
